@@ -577,7 +577,11 @@ static int _bisect_forward_serialno(OggVorbis_File *vf,
     if(ret)return(ret);
 
     ret=_fetch_headers(vf,&vi,&vc,&next_serialno_list,&next_serialnos,NULL);
-    if(ret)return(ret);
+    if(ret){
+      /* the BOS pages seen before the failure are already on the list */
+      if(next_serialno_list)_ogg_free(next_serialno_list);
+      return(ret);
+    }
     serialno = vf->os.serialno;
     dataoffset = vf->offset;
 
